@@ -1,1 +1,111 @@
-//! C02 — (harnesses not written yet)
+//! C02 — every written .shp is a well-formed ESRI shapefile (independent decoder).
+use crate::env::*;
+use crate::model::*;
+use crate::refcodec::*;
+use shapefile::record::{ConcreteReadableShape, ReadableShape, WritableShape};
+use shapefile::*;
+
+/// Real writer, `specs.len()` shapes, explicit finalize or plain drop; then the strict
+/// independent walk + decode of the bytes left behind.
+pub fn wellformed<S: TShape, const N: usize>(specs: &[Spec], explicit_finalize: bool) {
+    let n = specs.len();
+    let mut built = [Model::empty(S::CODE); MAXR];
+    let mut shp = MemFile::<N>::new();
+    {
+        let mut w = ShapeWriter::new(&mut shp);
+        let mut i = 0;
+        while i < n {
+            let m = sym_spec(S::CODE, &specs[i]);
+            let s = S::build(&m);
+            built[i] = s.extract();
+            let r = w.write_shape(&s);
+            assert!(r.is_ok());
+            std::mem::forget(r);
+            i += 1;
+        }
+        if explicit_finalize {
+            let r = w.finalize();
+            assert!(r.is_ok());
+            std::mem::forget(r);
+        }
+    }
+    match walk_shp(&shp.buf, shp.len) {
+        Some(w) => {
+            assert!(w.n == n, "record count differs from the number of shapes written");
+            if n == 0 {
+                assert!(shp.len == 100);
+            } else {
+                assert!(w.header.code == S::CODE, "header type is not the type of the shapes");
+            }
+            let mut i = 0;
+            while i < n {
+                match dec_content(&shp.buf, w.start[i] + 8, w.clen[i]) {
+                    Some(d) => assert!(decoded_equals_built(&d, &built[i]), "decoded record differs from the shape written"),
+                    None => assert!(false, "record content is not well-formed"),
+                }
+                i += 1;
+            }
+            kani::cover!(true, "file walked and decoded by the independent decoder");
+        }
+        None => assert!(false, "file is not well-formed"),
+    }
+}
+
+macro_rules! wf {
+    ($name:ident, $T:ty, $N:expr, $specs:expr, $fin:expr) => {
+        #[kani::proof]
+        #[kani::unwind(22)]
+        fn $name() {
+            wellformed::<$T, $N>(&$specs, $fin);
+        }
+    };
+}
+
+// H: tier=quick; sym=none; n=0 shapes, drop only; asserts=100-byte header, length field 50 words, no records
+wf!(c02_q_empty_drop, Point, 128, [], false);
+// H: tier=quick; sym=2 Points; asserts=strict walk (code 9994, zero words, length, version, type, record numbers 1..2, content lengths, no gap/trailing byte) + decoded == written
+wf!(c02_q_point_2, Point, 192, [spec(&[]), spec(&[])], false);
+// H: tier=quick; sym=1 PointM, explicit finalize; asserts=strict walk + decoded == written (M raw)
+wf!(c02_q_pointm_1_finalize, PointM, 160, [spec(&[])], true);
+// H: tier=quick; sym=2 PointZ; asserts=strict walk + decoded == written
+wf!(c02_q_pointz_2, PointZ, 224, [spec(&[]), spec(&[])], false);
+// H: tier=quick; sym=Multipoint of 2 then 1 points; asserts=strict walk + decoded == written (box, count, XY)
+wf!(c02_q_multipoint_2_1, Multipoint, 288, [spec(&[2]), spec(&[1])], false);
+// H: tier=quick; sym=MultipointM 2 points; asserts=strict walk + decoded == written (M range + M array)
+wf!(c02_q_multipointm_2, MultipointM, 256, [spec(&[2])], false);
+// H: tier=quick; sym=MultipointZ 2 points; asserts=strict walk + decoded == written (Z range+array, M range+array)
+wf!(c02_q_multipointz_2, MultipointZ, 288, [spec(&[2])], false);
+// H: tier=quick; sym=Polyline [2,3] then [2]; asserts=strict walk + part offsets ascending from 0 + decoded == written
+wf!(c02_q_polyline_23_then_2, Polyline, 384, [spec(&[2, 3]), spec(&[2])], false);
+// H: tier=quick; sym=PolylineM [2,2]; asserts=strict walk + decoded == written
+wf!(c02_q_polylinem_22, PolylineM, 320, [spec(&[2, 2])], false);
+// H: tier=quick; sym=PolylineZ [2,3], explicit finalize; asserts=strict walk + decoded == written
+wf!(c02_q_polylinez_23_finalize, PolylineZ, 416, [spec(&[2, 3])], true);
+// H: tier=quick; sym=Polygon rings [open 3 -> 4, closed 4]; asserts=strict walk + decoded == what the constructor built
+wf!(c02_q_polygon_o3_c4, Polygon, 320, [spec_k(&[3, 4], &[0, 1], &[0], &[1])], false);
+// H: tier=quick; sym=PolygonM ring closed 4; asserts=strict walk + decoded == built
+wf!(c02_q_polygonm_c4, PolygonM, 288, [spec_k(&[4], &[0], &[], &[0])], false);
+// H: tier=quick; sym=PolygonZ ring closed 4; asserts=strict walk + decoded == built
+wf!(c02_q_polygonz_c4, PolygonZ, 352, [spec_k(&[4], &[0], &[], &[0])], false);
+// H: tier=quick; sym=Multipatch [strip 3, outer ring closed 4]; asserts=strict walk + patch kinds + decoded == built
+wf!(c02_q_multipatch_strip3_outer4, Multipatch, 448, [spec_k(&[3, 4], &[0, 2], &[], &[1])], false);
+// H: tier=thorough; sym=3 PointZ; asserts=strict walk + decoded == written
+wf!(c02_t_pointz_3, PointZ, 256, [spec(&[]), spec(&[]), spec(&[])], true);
+// H: tier=thorough; sym=PolylineZ [2] then [2,2]; asserts=strict walk + decoded == written
+wf!(c02_t_polylinez_2_then_22, PolylineZ, 608, [spec(&[2]), spec(&[2, 2])], false);
+// H: tier=thorough; sym=PolylineM [3] then [2]; asserts=strict walk + decoded == written
+wf!(c02_t_polylinem_3_then_2, PolylineM, 448, [spec(&[3]), spec(&[2])], false);
+// H: tier=thorough; sym=MultipointZ 3 then 1; asserts=strict walk + decoded == written
+wf!(c02_t_multipointz_3_1, MultipointZ, 512, [spec(&[3]), spec(&[1])], false);
+// H: tier=thorough; sym=MultipointM 1 then 3; asserts=strict walk + decoded == written
+wf!(c02_t_multipointm_1_3, MultipointM, 448, [spec(&[1]), spec(&[3])], false);
+// H: tier=thorough; sym=Multipatch [fan 3, ring open 3] then [inner ring closed 4]; asserts=strict walk + decoded == built
+wf!(c02_t_multipatch_two, Multipatch, 800, [spec_k(&[3, 3], &[1, 5], &[1], &[]), spec_k(&[4], &[3], &[], &[0])], false);
+// H: tier=thorough; sym=PolygonZ [closed 4, open 3] then [closed 4]; asserts=strict walk + decoded == built
+wf!(c02_t_polygonz_two, PolygonZ, 800, [spec_k(&[4, 3], &[0, 1], &[1], &[0]), spec_k(&[4], &[0], &[], &[0])], false);
+// H: tier=thorough; sym=PolygonM [closed 4, closed 4]; asserts=strict walk + decoded == built
+wf!(c02_t_polygonm_c4_c4, PolygonM, 448, [spec_k(&[4, 4], &[0, 1], &[], &[0, 1])], true);
+// H: tier=thorough; sym=Polygon [closed 4] then [open 3]; asserts=strict walk + decoded == built
+wf!(c02_t_polygon_two, Polygon, 448, [spec_k(&[4], &[0], &[], &[0]), spec_k(&[3], &[1], &[0], &[])], false);
+// H: tier=thorough; sym=Polyline [2,3,4]; asserts=strict walk + decoded == written
+wf!(c02_t_polyline_234, Polyline, 352, [spec(&[2, 3, 4])], false);
